@@ -169,7 +169,9 @@ def dead_parameters(fn) -> list[str]:
         or (isinstance(s, ast.Return) and (s.value is None or isinstance(s.value, ast.Constant) or dotted(s.value) == "NotImplemented"))
         for s in fn.body
     )
-    if body_is_stub:
+    # a body that always raises without ever reading its operands is a stub ("not supported"), whatever else it does
+    always_raises = bool(fn.body) and isinstance(fn.body[-1], ast.Raise) and not any(isinstance(n, ast.Return) for n in ast.walk(fn))
+    if body_is_stub or always_raises:
         return []
     return [p for p in params if p not in loads and p not in ("self", "cls") and not p.startswith("_")]
 
